@@ -13,7 +13,7 @@ class DateTimeUnixTimestamp(Validator):
 
         try:
             seconds = float(value)
-        except ValueError:
+        except (ValueError, OverflowError):  # OverflowError: an int too large for a float
             return self.raise_exception(msg=f'Could parse {value} to float.', value=value)
 
         try:
